@@ -40,6 +40,7 @@ pub struct Acc {
     pub prune_cases: Vec<String>,
     pub wf_cases: Vec<String>,
     pub evolve_cases: Vec<String>,
+    pub snap_cases: Vec<String>,
     pub units: Vec<Unit>,           // closed units (definitions + the cases that use them)
     pub case_json: Vec<Value>,      // index = case id
     pub fails: Vec<Value>,
@@ -58,14 +59,15 @@ pub struct Unit {
     pub prune: Vec<String>,
     pub wf: Vec<String>,
     pub evolve: Vec<String>,
+    pub snap: Vec<String>,
 }
 
 impl Acc {
     /// close the current unit: its definitions and cases stay together in one shard
     pub fn close_unit(&mut self) {
         let u = Unit { defs: std::mem::take(&mut self.defs), create: std::mem::take(&mut self.create_cases), restore: std::mem::take(&mut self.restore_cases),
-            prune: std::mem::take(&mut self.prune_cases), wf: std::mem::take(&mut self.wf_cases), evolve: std::mem::take(&mut self.evolve_cases) };
-        if !(u.create.is_empty() && u.restore.is_empty() && u.prune.is_empty() && u.wf.is_empty() && u.evolve.is_empty()) {
+            prune: std::mem::take(&mut self.prune_cases), wf: std::mem::take(&mut self.wf_cases), evolve: std::mem::take(&mut self.evolve_cases), snap: std::mem::take(&mut self.snap_cases) };
+        if !(u.create.is_empty() && u.restore.is_empty() && u.prune.is_empty() && u.wf.is_empty() && u.evolve.is_empty() && u.snap.is_empty()) {
             self.units.push(u);
         }
     }
@@ -82,7 +84,7 @@ impl Acc {
         o.close_unit();
         let fix = |v: &Vec<String>| -> Vec<String> { v.iter().map(|s| shift_ids(s, id_shift)).collect() };
         for u in &o.units {
-            self.units.push(Unit { defs: fix(&u.defs), create: fix(&u.create), restore: fix(&u.restore), prune: fix(&u.prune), wf: fix(&u.wf), evolve: fix(&u.evolve) });
+            self.units.push(Unit { defs: fix(&u.defs), create: fix(&u.create), restore: fix(&u.restore), prune: fix(&u.prune), wf: fix(&u.wf), evolve: fix(&u.evolve), snap: fix(&u.snap) });
         }
         self.case_json.extend(o.case_json);
         self.fails.extend(o.fails);
@@ -237,7 +239,8 @@ fn run_history(seed: u64, idx: usize, work: &Path, backups_per_history: usize) -
         let parent = taken.last().map(|t| t.meta.clone());
         let res = if full { mgr.create_full_backup(format!("h{}b{}", idx, k)) } else { mgr.create_incremental_backup(parent.as_ref().unwrap().id, format!("h{}b{}", idx, k)) };
         // correspondence: which members did the implementation archive?
-        let kind = if full { "None".to_string() } else { let p = parent.as_ref().unwrap(); format!("(Some (Some ({}, {})))", p.timestamp, opt_n(p.max_wal_file_id)) };
+        let metas_now: Vec<BackupMetadata> = taken.iter().map(|t| t.meta.clone()).collect();
+        let kind = if full { "None".to_string() } else { format!("(Some ({}, {}))", meta_store_literal(&metas_now), store_index(&metas_now, parent.as_ref().unwrap().id)) };
         let obs = match &res {
             Ok(m) => created_literal(&mut ab, &bk, m),
             Err(e) => format!("(Err {})", create_err_class(&format!("{:#}", e))),
@@ -254,6 +257,10 @@ fn run_history(seed: u64, idx: usize, work: &Path, backups_per_history: usize) -
         if let (false, Some(p), Some(pname)) = (full, parent.as_ref(), dir_names.last()) {
             let eid = acc.new_case(json!({"stage": "A", "kind": "premise-evolves", "history": idx, "backup": k}));
             acc.evolve_cases.push(format!("(@ID{}@, {}, {}, {}, {})", eid, pname, p.timestamp, opt_n(p.max_wal_file_id), dname));
+        }
+        for earlier in &dir_names {
+            let sid = acc.new_case(json!({"stage": "A", "kind": "premise-snapshot-names-stable", "history": idx, "backup": k}));
+            acc.snap_cases.push(format!("(@ID{}@, {}, {})", sid, earlier, dname));
         }
         match res {
             Ok(m) => {
@@ -702,7 +709,7 @@ fn write_shards(out: &Path, acc: &Acc) -> usize {
     let nshards = 16usize.min(acc.units.len().max(1));
     // greedy balancing by text size
     let mut order: Vec<usize> = (0..acc.units.len()).collect();
-    let size = |u: &Unit| -> usize { u.defs.iter().chain(&u.create).chain(&u.restore).chain(&u.prune).chain(&u.wf).chain(&u.evolve).map(|s| s.len()).sum() };
+    let size = |u: &Unit| -> usize { u.defs.iter().chain(&u.create).chain(&u.restore).chain(&u.prune).chain(&u.wf).chain(&u.evolve).chain(&u.snap).map(|s| s.len()).sum() };
     order.sort_by_key(|i| std::cmp::Reverse(size(&acc.units[*i])));
     let mut bins: Vec<(usize, Vec<usize>)> = vec![(0, vec![]); nshards];
     for i in order {
@@ -715,7 +722,7 @@ fn write_shards(out: &Path, acc: &Acc) -> usize {
         members.sort_unstable();
         let us: Vec<&Unit> = members.iter().map(|i| &acc.units[*i]).collect();
         let cat = |f: &dyn Fn(&Unit) -> &Vec<String>| -> String { us.iter().flat_map(|u| f(u).iter().cloned()).collect::<Vec<_>>().join(";\n  ") };
-        let total: usize = us.iter().map(|u| u.create.len() + u.restore.len() + u.prune.len() + u.wf.len() + u.evolve.len()).sum();
+        let total: usize = us.iter().map(|u| u.create.len() + u.restore.len() + u.prune.len() + u.wf.len() + u.evolve.len() + u.snap.len()).sum();
         let defs = us.iter().flat_map(|u| u.defs.iter().cloned()).collect::<Vec<_>>().join("\n");
         let text = format!(
 "From Coq Require Import List NArith Bool.
@@ -723,7 +730,7 @@ From Kyro Require Import Model.Backup.
 Import ListNotations.
 Open Scope N_scope.
 {}
-Definition create_cases : list (N * sdir * option (option (N * option N)) * res created) := [
+Definition create_cases : list (N * sdir * option (store * N) * res created) := [
   {}
 ].
 Definition restore_cases : list (N * store * tdir * (N + N) * copts * (option berr * tdir)) := [
@@ -738,14 +745,16 @@ Definition wf_cases : list (N * sdir * manifest) := [
 Definition evolve_cases : list (N * sdir * N * option N * sdir) := [
   {}
 ].
+Definition snap_cases : list (N * sdir * sdir) := [
+  {}
+].
 Definition as_created (r : res backup) : res created :=
   match r with Ok b => Ok (b_files b, b_max_wal b, b_snapfile b) | Err e => Err e end.
 Definition bad_create : list N := map (fun c => match c with (id, _, _, _) => id end)
   (filter (fun c => match c with (_, d, k, obs) =>
      negb (created_eqb (match k with
                         | None => create_full_files d
-                        | Some None => as_created (create_incremental [] d 0 0 0 0)
-                        | Some (Some (pts, pmax)) => create_incr_files d pts pmax
+                        | Some (st, pid) => as_created (create_incremental st d pid 0 0 0)
                         end) obs) end) create_cases).
 Definition bad_restore : list N := map (fun c => match c with (id, _, _, _, _, _) => id end)
   (filter (fun c => match c with (_, st, t, rq, o, obs) =>
@@ -754,7 +763,8 @@ Definition bad_prune : list N := map (fun c => match c with (id, _, _, _, _) => 
   (filter (fun c => match c with (_, now, p, l, del) => negb (listN_eqb (prune_deleted now p l) del) end) prune_cases).
 Definition premise_bad : list N :=
   map (fun c => match c with (id, _, _) => id end) (filter (fun c => match c with (_, d, m) => negb (wf_sdirb d m) end) wf_cases)
-  ++ map (fun c => match c with (id, _, _, _, _) => id end) (filter (fun c => match c with (_, dp, pts, pmax, d) => negb (evolvesb dp pts pmax d) end) evolve_cases).
+  ++ map (fun c => match c with (id, _, _, _, _) => id end) (filter (fun c => match c with (_, dp, pts, pmax, d) => negb (evolvesb dp pts pmax d) end) evolve_cases)
+  ++ map (fun c => match c with (id, _, _) => id end) (filter (fun c => match c with (_, dp, d) => negb (snap_stableb dp d) end) snap_cases).
 Goal True. idtac \"@@bad_create\". Abort.
 Eval vm_compute in bad_create.
 Goal True. idtac \"@@bad_restore\". Abort.
@@ -765,7 +775,7 @@ Goal True. idtac \"@@premise_bad\". Abort.
 Eval vm_compute in premise_bad.
 Goal True. idtac \"@@count\". Abort.
 Eval vm_compute in {}.
-", defs, cat(&|u| &u.create), cat(&|u| &u.restore), cat(&|u| &u.prune), cat(&|u| &u.wf), cat(&|u| &u.evolve), total);
+", defs, cat(&|u| &u.create), cat(&|u| &u.restore), cat(&|u| &u.prune), cat(&|u| &u.wf), cat(&|u| &u.evolve), cat(&|u| &u.snap), total);
         std::fs::write(out.join(format!("cases_{}.v", k)), text).unwrap();
     }
     nshards
@@ -890,9 +900,9 @@ fn main() {
     for f in total.fails.iter() { if ordered.len() >= 40 { break; } if !ordered.contains(f) { ordered.push(f.clone()); } }
     let summary = json!({
         "shards": shards,
-        "cases_in_coq": cnt(&|u| u.create.len() + u.restore.len() + u.prune.len() + u.wf.len() + u.evolve.len()),
+        "cases_in_coq": cnt(&|u| u.create.len() + u.restore.len() + u.prune.len() + u.wf.len() + u.evolve.len() + u.snap.len()),
         "create_cases": cnt(&|u| u.create.len()), "restore_cases": cnt(&|u| u.restore.len()), "prune_cases": cnt(&|u| u.prune.len()),
-        "premise_cases": cnt(&|u| u.wf.len() + u.evolve.len()),
+        "premise_cases": cnt(&|u| u.wf.len() + u.evolve.len() + u.snap.len()),
         "histories": chains.len(), "failures": n_fail,
         "failure_classes": total.fails.iter().fold(BTreeMap::<String, u64>::new(), |mut m, f| { *m.entry(f["class"].as_str().unwrap_or("unclassified").to_string()).or_insert(0) += 1; m }),
         "histogram": total.hist, "distinct_nontrivial": total.nontrivial, "samples": total.samples, "notes": total.notes,
